@@ -83,9 +83,10 @@ type result struct {
 	StuckState           string     `json:"stuck_goroutine_state,omitempty"`
 	StuckStructural      bool       `json:"stuck_structural,omitempty"`
 
-	IsOnChecked    bool `json:"ison_checked"`
-	IsOnAfter      bool `json:"ison_after"`
-	IsOnStructural bool `json:"ison_after_library_quiescent,omitempty"`
+	StartInProgressAtStop bool `json:"start_in_progress_at_stop,omitempty"`
+	IsOnChecked           bool `json:"ison_checked"`
+	IsOnAfter             bool `json:"ison_after"`
+	IsOnStructural        bool `json:"ison_after_library_quiescent,omitempty"`
 
 	DescendantsJudged int `json:"descendants_judged"`
 	ExemptAliveAfter  int `json:"exempt_alive_after"`
@@ -101,14 +102,27 @@ type result struct {
 }
 
 // memLoggers is the logs.Loggers the subprocess writes to (content is don't-care here).
-type memLoggers struct{ lines atomic.Int64 }
+// With slowStarted set, recording the announcement "Started process [pid]" takes that long (a remote or
+// congested sink): Start() is then still in progress although the process exists and has been announced.
+type memLoggers struct {
+	lines       atomic.Int64
+	slowStarted time.Duration
+	announced   chan struct{}
+	once        sync.Once
+}
 
 func (m *memLoggers) Close() error                 { return nil }
 func (m *memLoggers) Check() error                 { return nil }
 func (m *memLoggers) SetLogSource(string) error    { return nil }
 func (m *memLoggers) SetLoggerSource(string) error { return nil }
-func (m *memLoggers) Log(...interface{})           { m.lines.Add(1) }
 func (m *memLoggers) LogError(...interface{})      { m.lines.Add(1) }
+func (m *memLoggers) Log(args ...interface{}) {
+	m.lines.Add(1)
+	if m.slowStarted > 0 && len(args) > 0 && strings.HasPrefix(fmt.Sprint(args[0]), "Started process [") {
+		m.once.Do(func() { close(m.announced) })
+		time.Sleep(m.slowStarted)
+	}
+}
 
 type lockedBuf struct {
 	mu sync.Mutex
@@ -353,6 +367,16 @@ func libraryQuiescent(blocks []string) (quiescent, killing bool) {
 	return
 }
 
+// libraryGoroutines counts the goroutines that are inside the subprocess or proc packages.
+func libraryGoroutines() (n int) {
+	for _, b := range goroutineDump() {
+		if strings.Contains(b, "golang-utils/utils/subprocess") || strings.Contains(b, "golang-utils/utils/proc") {
+			n++
+		}
+	}
+	return
+}
+
 func harnessMain() {
 	_ = unix.Prctl(unix.PR_SET_CHILD_SUBREAPER, 1, 0, 0, 0)
 	var dlCount atomic.Int64
@@ -376,7 +400,10 @@ func harnessMain() {
 	if f, err := os.OpenFile(h.registry, os.O_CREATE|os.O_WRONLY, 0o644); err == nil {
 		f.Close()
 	}
-	loggers := &memLoggers{}
+	loggers := &memLoggers{announced: make(chan struct{})}
+	if h.cs.SlowStartLogMs > 0 {
+		loggers.slowStarted = time.Duration(h.cs.SlowStartLogMs) * time.Millisecond
+	}
 	h.run(loggers)
 	res.LogLines = loggers.lines.Load()
 	res.DeadlockReports = int(dlCount.Load())
@@ -447,7 +474,7 @@ func (h *harness) run(loggers *memLoggers) {
 	// start
 	var cur atomic.Pointer[subprocess.Subprocess]
 	isOn := func() bool { p := cur.Load(); return p != nil && p.IsOn() }
-	var mainCall *asyncCall
+	var mainCall, startCall *asyncCall
 	t0 := time.Now()
 	switch cs.Start {
 	case "Execute":
@@ -468,7 +495,24 @@ func (h *harness) run(loggers *memLoggers) {
 		}
 		cur.Store(p)
 		t0 = time.Now()
-		if err := p.Start(); err != nil {
+		if cs.SlowStartLogMs > 0 {
+			// Start() runs in a goroutine of its own: the stop is requested once the process has been announced
+			// ("Started process [pid]") while the sink is still busy recording that announcement
+			startCall = goCall(p.Start)
+			select {
+			case <-loggers.announced:
+			case <-startCall.done:
+				if startCall.err != nil {
+					res.StartErr = startCall.err.Error()
+				}
+				res.Vacuous = "Start was over before its announcement was seen"
+				return
+			case <-time.After(boundReady):
+				res.Errors = append(res.Errors, "start never announced")
+				return
+			}
+			t0 = time.Now()
+		} else if err := p.Start(); err != nil {
 			res.StartErr = err.Error()
 			res.Vacuous = "Start failed (context already over): nothing was running"
 			return
@@ -489,6 +533,9 @@ func (h *harness) run(loggers *memLoggers) {
 	// the instant of the stop
 	var lastSample atomic.Pointer[view]
 	switch cs.Anchor {
+	case "announced":
+		time.Sleep(time.Duration(cs.DelayMs) * time.Millisecond)
+		res.StartInProgressAtStop = startCall != nil && !isDone(startCall.done)
 	case "call":
 		if d := time.Until(t0.Add(time.Duration(cs.DelayMs) * time.Millisecond)); d > 0 {
 			time.Sleep(d)
@@ -602,7 +649,7 @@ func (h *harness) run(loggers *memLoggers) {
 
 	// the stop request
 	var stopCall *asyncCall
-	if cs.Stop == "Cancel" && !res.IsOnAtStop {
+	if cs.Stop == "Cancel" && !res.IsOnAtStop && cs.Anchor != "announced" {
 		// Cancel() ends the context of the current run only; issued before the run has begun it is
 		// legitimately without effect (Execute creates a fresh context)
 		res.Vacuous = "Cancel() before the subprocess was on"
@@ -627,6 +674,34 @@ func (h *harness) run(loggers *memLoggers) {
 	case "Stop":
 		stopCall = goCall(cur.Load().Stop)
 		res.Awaited = "Stop"
+	case "Restart+context-cancel", "Restart+Cancel":
+		// a longer history: the subprocess is restarted first (waited for), its replacement is cancelled
+		rc := goCall(cur.Load().Restart)
+		select {
+		case <-rc.done:
+		case <-time.After(boundG):
+			res.Errors = append(res.Errors, "the Restart preceding the stop did not return")
+			return
+		}
+		if rc.err != nil {
+			res.Errors = append(res.Errors, "the Restart preceding the stop failed: "+rc.err.Error())
+			return
+		}
+		time.Sleep(time.Duration(50+cs.DelayMs) * time.Millisecond)
+		res.IsOnAtStop = isOn()
+		fill(h.observe())
+		regState()
+		stopAt = time.Now()
+		if cs.Stop == "Restart+Cancel" {
+			cancelCall := goCall(func() error { cur.Load().Cancel(); return nil })
+			select {
+			case <-cancelCall.done:
+			case <-time.After(2 * time.Second):
+				res.CancelPending = true
+			}
+		} else {
+			cancel()
+		}
 	case "Restart":
 		stopCall = goCall(cur.Load().Restart)
 		res.Awaited = "Restart"
@@ -767,11 +842,15 @@ func (h *harness) run(loggers *memLoggers) {
 				}
 				return ""
 			}
-			a := find()
+			a, na := find(), libraryGoroutines()
 			time.Sleep(time.Second)
-			b := find()
+			b, nb := find(), libraryGoroutines()
 			res.StuckState = b
 			res.StuckStructural = a != "" && a == b && isParked(strings.SplitN(b, "|", 2)[0]) && !isDone(done)
+			if res.Awaited == "IsOn()==false" && na == 0 && nb == 0 && !isDone(done) {
+				// IsOn() is still true and no goroutine of the library exists any more that could ever clear it
+				res.StuckStructural, res.StuckState = true, "no goroutine of the library is left"
+			}
 			res.Goroutines = joinDump(goroutineDump())
 		}
 	}
